@@ -261,6 +261,39 @@ func (se *strEval) elemsOf(v ssa.Value, env map[*ssa.Parameter][]string, depth i
 		if al, ok := x.X.(*ssa.Alloc); ok && x.Op == token.MUL {
 			return se.elemsOf(al, env, depth+1) // the value of a local array
 		}
+		if g, ok := x.X.(*ssa.Global); ok && x.Op == token.MUL && g.Pkg != nil && depth < 6 {
+			// a package-level list: the literal its initialiser stores (written nowhere else)
+			var out []string
+			n := 0
+			for _, f := range se.c.Funcs {
+				allInstrs(f, func(ins ssa.Instruction) {
+					if st, ok := ins.(*ssa.Store); ok && st.Addr == ssa.Value(g) {
+						n++
+						if f.Name() == "init" && f.Pkg == g.Pkg {
+							out = append(out, se.elemsOf(st.Val, nil, depth+1)...)
+						} else {
+							out = append(out, holeOf(v))
+						}
+					}
+				})
+			}
+			if n > 0 {
+				return uniq(out)
+			}
+		}
+	case *ssa.Call:
+		// a list handed out by a function of the module: what its returns hold
+		if sc := x.Call.StaticCallee(); sc != nil && fnInModule(sc) && sc.Blocks != nil && depth < 6 && sc.Signature.Results().Len() == 1 {
+			var out []string
+			allInstrs(sc, func(ins ssa.Instruction) {
+				if ret, ok := ins.(*ssa.Return); ok && len(ret.Results) == 1 {
+					out = append(out, se.elemsOf(ret.Results[0], nil, depth+1)...)
+				}
+			})
+			if len(out) > 0 {
+				return uniq(out)
+			}
+		}
 	}
 	return []string{holeOf(v)}
 }
